@@ -660,7 +660,14 @@ def unaryOp (sc : Bool) (op : UnOp) (e : Operand) : Option Operand :=
     else some (rvalue (.ptr q t))
   | .deref =>
     match e.ty with
-    | .ptr q b => some (decay { ty := b, qual := q, lvalue := true })
+    | .ptr q b =>
+      -- `if (base->kind == EXPRUNARY && base->op == TBAND) { expr = base->base; expr->type = type; }`:
+      -- for a decayed array the designator itself is reused with the element type, and keeps ITS
+      -- qualifiers (`e->qual` of the array object) -- the element qualifiers `t->qual` are dropped
+      let q' := match e.decayedFrom with
+        | some (_, dq) => dq
+        | none => q
+      some (decay { ty := b, qual := q', lvalue := true })
     | _ => none
   | .plus =>
     if !e.ty.isArith then none
